@@ -51,6 +51,29 @@ struct Model {
 
 enum Kind { Exact, BallLike, WeldLike, NoSlipLike };
 
+// f(x0,x1,x2) = x0*x1 + sin(x2) - 0.3*x1^2*x2  (nonlinear in every argument; for CoordinateCoupler)
+struct FnCC : public Function {
+  Real calcValue(const Vector& x) const override { return x[0]*x[1] + std::sin(x[2]) - 0.3*x[1]*x[1]*x[2]; }
+  Real calcDerivative(const Array_<int>& c, const Vector& x) const override {
+    if (c.size()==1) { switch(c[0]) { case 0: return x[1]; case 1: return x[0]-0.6*x[1]*x[2]; default: return std::cos(x[2])-0.3*x[1]*x[1]; } }
+    int i=std::min(c[0],c[1]), j=std::max(c[0],c[1]);
+    if (i==0&&j==1) return 1; if (i==1&&j==1) return -0.6*x[2]; if (i==1&&j==2) return -0.6*x[1]; if (i==2&&j==2) return -std::sin(x[2]); return 0;
+  }
+  int getArgumentSize() const override { return 3; }
+  int getMaxDerivativeOrder() const override { return 2; }
+};
+// f(u0,u1,q) = u0*(1+q^2) - 2*u1 + sin(q)   (affine in the speeds, nonlinear in the coordinate; for SpeedCoupler)
+struct FnSC : public Function {
+  Real calcValue(const Vector& x) const override { return x[0]*(1+x[2]*x[2]) - 2*x[1] + std::sin(x[2]); }
+  Real calcDerivative(const Array_<int>& c, const Vector& x) const override {
+    if (c.size()==1) { switch(c[0]) { case 0: return 1+x[2]*x[2]; case 1: return -2; default: return 2*x[0]*x[2]+std::cos(x[2]); } }
+    int i=std::min(c[0],c[1]), j=std::max(c[0],c[1]);
+    if (i==0&&j==2) return 2*x[2]; if (i==2&&j==2) return 2*x[0]-std::sin(x[2]); return 0;
+  }
+  int getArgumentSize() const override { return 3; }
+  int getMaxDerivativeOrder() const override { return 2; }
+};
+
 struct Case { std::string name; Kind kind; std::function<Constraint(Model&)> make; };
 
 static void runCase(const Case& c, int config, unsigned seed, int iters) {
@@ -63,12 +86,12 @@ static void runCase(const Case& c, int config, unsigned seed, int iters) {
     const int nq=s.getNQ(), nu=s.getNU();
     Vector q(nq), u(nu), udot(nu);
     for (int i=0;i<nq;++i) q[i]=rnd(); for (int i=0;i<nu;++i) { u[i]=rnd(); udot[i]=rnd(); }
-    s.updQ()=q; s.updU()=u; M.sys.realize(s, Stage::Velocity);
+    s.setTime(0.37+0.1*it); s.updQ()=q; s.updU()=u; M.sys.realize(s, Stage::Velocity);
     int mp,mv,ma; cons.getNumConstraintEquationsInUse(s,mp,mv,ma); const int m=mp+mv+ma;
     Vector perr = s.getQErr(), verr = s.getUErr(), aerr; matter.calcConstraintAccelerationErrors(s, udot, aerr);
     Vector aerr0; matter.calcConstraintAccelerationErrors(s, Vector(nu,0.0), aerr0);
     Vector qdot = s.getQDot();
-    auto at=[&](double h, Vector& pe, Vector& ve){ State t=s; t.updQ()=q+h*qdot; t.updU()=u+h*udot; M.sys.realize(t,Stage::Velocity); pe=t.getQErr(); ve=t.getUErr(); };
+    auto at=[&](double h, Vector& pe, Vector& ve){ State t=s; t.setTime(s.getTime()+h); t.updQ()=q+h*qdot; t.updU()=u+h*udot; M.sys.realize(t,Stage::Velocity); pe=t.getQErr(); ve=t.getUErr(); };
     // Richardson-extrapolated central differences
     auto diff=[&](double h, Vector& dp, Vector& dv){ Vector p1,v1,p2,v2; at(h,p1,v1); at(-h,p2,v2); dp=(p1-p2)/(2*h); dv=(v1-v2)/(2*h); };
     Vector dp1,dv1,dp2,dv2; diff(2e-4,dp1,dv1); diff(1e-4,dp2,dv2);
@@ -103,6 +126,19 @@ static void runCase(const Case& c, int config, unsigned seed, int iters) {
         rep(tag+": (2') aerr == d/dt verr + w_AB x verr (translational rows)", (ae-(dve + w%ve)).norm(), tol);
         dev(tag+": (2) aerr == d/dt verr (translational rows, violated verr, rotating base)", (ae-dve).norm(), tol);
       } else if (c.kind==NoSlipLike) {
+        // exact relation: d/dt verr == aerr + [w1 x (v_P - v_P1) - w0 x (v_P - v_P0)] . n_A   (P: contact point as a material point of the case,
+        // P0/P1: the coincident material points of the two moving bodies; everything measured and expressed in the Ancestor A)
+        const MobilizedBody& C = cons.getMobilizedBodyFromConstrainedBody(ConstrainedBodyIndex(0));
+        const MobilizedBody& B0 = cons.getMobilizedBodyFromConstrainedBody(ConstrainedBodyIndex(1));
+        const MobilizedBody& B1 = cons.getMobilizedBodyFromConstrainedBody(ConstrainedBodyIndex(2));
+        const Vec3 P_C(0.3,-0.1,0.2); const UnitVec3 n_C(0.3,-0.5,0.8);      // as constructed in main()
+        Vec3 pG = C.findStationLocationInGround(s, P_C);
+        Vec3 s0 = B0.findStationAtGroundPoint(s, pG), s1 = B1.findStationAtGroundPoint(s, pG);
+        Vec3 vP = C.findStationVelocityInAnotherBody(s, P_C, A), vP0 = B0.findStationVelocityInAnotherBody(s, s0, A), vP1 = B1.findStationVelocityInAnotherBody(s, s1, A);
+        Vec3 w0 = wInA(B0), w1 = wInA(B1), nA = C.expressVectorInAnotherBodyFrame(s, Vec3(n_C), A);
+        double resid = dot(w1 % (vP - vP1) - w0 % (vP - vP0), nA);
+        rep(tag+": (2') d/dt verr == aerr + [w1 x (v_P - v_P1) - w0 x (v_P - v_P0)] . n_A", std::fabs(dverr[0] - (aerr[0] + resid)), tol);
+        rep(tag+": (4) verr == (v_P1 - v_P0) . n_A", std::fabs(verr[0] - dot(vP1 - vP0, nA)), 1e-9);
         dev(tag+": (2) aerr == d/dt verr (contact point moving over the wheels)", vmax(strictRes), tol);
       }
     }
@@ -148,6 +184,13 @@ int main(int argc, char** argv) {
     {"NoSlip1D", NoSlipLike, [&](Model& M){ return Constraint(Constraint::NoSlip1D(M.b3, sB, n, M.b1, M.b2)); }},
     {"ConstantCoordinate", Exact, [&](Model& M){ return Constraint(Constraint::ConstantCoordinate(M.pin, MobilizerQIndex(0), 0.3)); }},
     {"ConstantSpeed", Exact, [&](Model& M){ return Constraint(Constraint::ConstantSpeed(M.slider, MobilizerUIndex(0), -0.7)); }},
+    {"CoordinateCoupler", Exact, [&](Model& M){ Array_<MobilizedBodyIndex> b; Array_<MobilizerQIndex> qi; b.push_back(M.pin.getMobilizedBodyIndex()); qi.push_back(MobilizerQIndex(0));
+        b.push_back(M.slider.getMobilizedBodyIndex()); qi.push_back(MobilizerQIndex(0)); b.push_back(M.b1.getMobilizedBodyIndex()); qi.push_back(MobilizerQIndex(1));
+        return Constraint(Constraint::CoordinateCoupler(M.matter, new FnCC(), b, qi)); }},
+    {"SpeedCoupler", Exact, [&](Model& M){ Array_<MobilizedBodyIndex> b, cb; Array_<MobilizerUIndex> ui; Array_<MobilizerQIndex> qi; b.push_back(M.pin.getMobilizedBodyIndex()); ui.push_back(MobilizerUIndex(0));
+        b.push_back(M.slider.getMobilizedBodyIndex()); ui.push_back(MobilizerUIndex(0)); cb.push_back(M.b3.getMobilizedBodyIndex()); qi.push_back(MobilizerQIndex(4));
+        return Constraint(Constraint::SpeedCoupler(M.matter, new FnSC(), b, ui, cb, qi)); }},
+    {"PrescribedMotion", Exact, [&](Model& M){ return Constraint(Constraint::PrescribedMotion(M.matter, new Function::Sinusoid(0.7,1.3,0.2), M.pin.getMobilizedBodyIndex(), MobilizerQIndex(0))); }},
     {"ConstantAcceleration", Exact, [&](Model& M){ return Constraint(Constraint::ConstantAcceleration(M.pin, MobilizerUIndex(0), 1.3)); }},
   };
   for (const Case& c : cases) for (int config=0; config<2; ++config) {
